@@ -3,6 +3,7 @@ package main
 // C17: goroutine safety and purity — write effects, lockset, by-value copies, package-level state.
 
 import (
+	"os"
 	"fmt"
 	"go/token"
 	"go/types"
@@ -70,6 +71,19 @@ func baseChain(v ssa.Value, depth int) (kind string, path string) {
 					}
 					k, p := baseChain(a, depth+1)
 					if sharedBase(k, p) {
+						return "from(" + k + p + " via " + shortName(n) + ")", ""
+					}
+				}
+			}
+		}
+		// a module function that hands back something it reached through its receiver or a pointer parameter (the cached
+		// signing context, a stored key) returns memory its caller shares with everybody else who holds that object
+		if callee != nil && callee.Blocks != nil && depth < 6 {
+			if idx, ok := returnsViaParam(callee, map[*ssa.Function]bool{}); ok {
+				args := x.Common().Args
+				if idx < len(args) {
+					k, p := baseChain(args[idx], depth+1)
+					if isProviderRooted(k) || sharedBase(k, p) {
 						return "from(" + k + p + " via " + shortName(n) + ")", ""
 					}
 				}
@@ -180,6 +194,9 @@ func providerEffectScan(c *Ctx) *types.Named {
 					nStores++
 					kind, path := baseChain(x.Addr, 0)
 					pos := c.P.InstrPos(x)
+					if os.Getenv("VERIF_DEBUG_C17") != "" {
+						fmt.Fprintln(os.Stderr, "C17 store", fname, pos, kind, path)
+					}
 					switch {
 					case strings.HasPrefix(kind, "global:"):
 						c.bad("C17-R1", fname, "store to package variable "+kind[7:]+path, pos, "a public operation writes package-level state ("+kind[7:]+path+"): concurrent calls race and calls are no longer isolated")
@@ -976,4 +993,88 @@ func isIfaceType(t types.Type) bool {
 	}
 	_, ok := t.Underlying().(*types.Interface)
 	return ok
+}
+
+// returnsViaParam: some return value of the module function is memory loaded through one of its pointer parameters
+// (possibly by way of another module function that does so). Returns that parameter's index.
+func returnsViaParam(fn *ssa.Function, seen map[*ssa.Function]bool) (int, bool) {
+	if fn == nil || fn.Blocks == nil || seen[fn] {
+		return 0, false
+	}
+	seen[fn] = true
+	paramOf := func(v ssa.Value) (int, bool) {
+		var walk func(v ssa.Value, depth int, loaded bool) (int, bool)
+		walk = func(v ssa.Value, depth int, loaded bool) (int, bool) {
+			if depth > 8 {
+				return 0, false
+			}
+			switch x := v.(type) {
+			case *ssa.Parameter:
+				if !loaded {
+					return 0, false
+				}
+				for i, q := range fn.Params {
+					if q == x {
+						return i, true
+					}
+				}
+			case *ssa.UnOp:
+				if x.Op == token.MUL {
+					// a result spilled to a local because of a defer: what was stored there
+					if al, isAl := x.X.(*ssa.Alloc); isAl {
+						if refs := al.Referrers(); refs != nil {
+							for _, r := range *refs {
+								if st, isSt := r.(*ssa.Store); isSt && st.Addr == ssa.Value(al) {
+									if i, ok := walk(st.Val, depth+1, loaded); ok {
+										return i, true
+									}
+								}
+							}
+						}
+						return 0, false
+					}
+					return walk(x.X, depth+1, true)
+				}
+			case *ssa.FieldAddr:
+				return walk(x.X, depth+1, loaded)
+			case *ssa.IndexAddr:
+				return walk(x.X, depth+1, loaded)
+			case *ssa.Extract:
+				return walk(x.Tuple, depth+1, loaded)
+			case *ssa.ChangeType:
+				return walk(x.X, depth+1, loaded)
+			case *ssa.Phi:
+				for _, e := range x.Edges {
+					if i, ok := walk(e, depth+1, loaded); ok {
+						return i, true
+					}
+				}
+			case *ssa.Call:
+				if c := x.Common().StaticCallee(); c != nil && c.Blocks != nil && c.Pkg == fn.Pkg {
+					if j, ok := returnsViaParam(c, seen); ok && j < len(x.Common().Args) {
+						return walk(x.Common().Args[j], depth+1, true)
+					}
+				}
+			}
+			return 0, false
+		}
+		return walk(v, 0, false)
+	}
+	for _, b := range fn.Blocks {
+		for _, in := range b.Instrs {
+			ret, ok := in.(*ssa.Return)
+			if !ok {
+				continue
+			}
+			for _, r := range ret.Results {
+				if !mayPointTo(r.Type()) {
+					continue
+				}
+				if i, ok := paramOf(r); ok {
+					return i, true
+				}
+			}
+		}
+	}
+	return 0, false
 }
